@@ -314,8 +314,9 @@ def run(chk: Check) -> None:
     ok = len(left) == 1 and not branch_reaches_exit(cfg, left[0], 'true') and bool(sets) and all(cfg.must_pass(cfg.entry, [left[0]], lambda m: any(sets[0] is c for c in _calls(m)) or m.kind == 'iter', edge_ok=no_exc) for _ in [0])
     chk.ob('PROV-namespace-options', ab, ok, 'options that are not PortNamespace properties are an error', kind='leftovers-raise')
     ret = [r for r in ast.walk(ab.node) if isinstance(r, ast.Return) and r.value is not None]
-    app = [c for c in calls_in_func(ab, 'append') if norm(c.func.value) == 'absorbed_ports']
-    chk.ob('PROV-namespace-options', ab, len(ret) == 1 and norm(ret[0].value) == 'absorbed_ports' and len(app) == 1 and [norm(a) for a in app[0].args] == ['port_name'],
+    acc = norm(ret[0].value) if len(ret) == 1 and isinstance(ret[0].value, ast.Name) else 'absorbed_ports'    # (whatever the list of names is called)
+    app = [c for c in calls_in_func(ab, 'append') if norm(c.func.value) == acc]
+    chk.ob('PROV-namespace-options', ab, len(ret) == 1 and norm(ret[0].value) == acc and len(app) == 1 and [norm(a) for a in app[0].args] == ['port_name'],
            'absorb reports the names it absorbed', kind='reports-absorbed')
     # _expose_ports
     ab_call = [c for c in calls_in_func(ep, 'absorb')]
